@@ -42,6 +42,9 @@ type Op struct {
 type Case struct {
 	Ctor   string `json:"ctor"`   // normal | ro | nosha | ronosha | retryable | load | roload
 	Script string `json:"script"` // see scriptKinds
+	// Retry: the scenario "cold cache, the fallback EVAL executes but its reply is lost" run with the client's
+	// DEFAULT retry policy (all other cases run with DisableRetry); oracle only, no model term
+	Retry bool `json:"retry,omitempty"`
 	Ops    []Op   `json:"ops"`
 }
 
@@ -57,6 +60,15 @@ func genCase(r *gen.Rand, i int) any {
 	default:
 		c.Script = gen.Pick(r, []string{"ok-bulk-noscript", "ok-bulk-errnoscript", "ok-status-noscript", "ok-status-errnoscript",
 			"ok-contains", "ok-int", "ok-array"})
+	}
+	if r.Chance(1, 8) {
+		c.Retry = true
+		c.Script = gen.Pick(r, []string{"ret", "ret", "ok-bulk-noscript", "ok-int"}) // scripts of the known-finding class would blur the verdict
+		c.Ops = []Op{{Tags: []int{1}, Env: []EnvStep{{}, {Fault: "lost"}}}}
+		if r.Chance(1, 2) { // a warm-up Exec, then the cache is flushed right before the EVALSHA
+			c.Ops = []Op{{Tags: []int{1}}, {Tags: []int{2}, Env: []EnvStep{{Flush: true}, {Fault: "lost"}}}}
+		}
+		return c
 	}
 	tag := 1
 	n := 1 + r.Size(8, 3)
@@ -186,6 +198,58 @@ func isScriptCmd(argv []string) (kind string, tag string, ok bool) {
 	return "", "", false
 }
 
+// recClient records, for every command Lua.Exec / ExecMulti hands to the client, its argv and retry class
+// (Completed.IsRetryable / IsReadOnly) before passing it on.
+type issued struct {
+	kind, tag           string
+	retryable, readOnly bool
+}
+
+type recClient struct {
+	rueidis.Client
+	mu  sync.Mutex
+	log []issued
+}
+
+func (r *recClient) note(cmd rueidis.Completed) {
+	if kind, tag, ok := isScriptCmd(cmd.Commands()); ok {
+		r.mu.Lock()
+		r.log = append(r.log, issued{kind, tag, cmd.IsRetryable(), cmd.IsReadOnly()})
+		r.mu.Unlock()
+	}
+}
+
+func (r *recClient) Do(ctx context.Context, cmd rueidis.Completed) rueidis.RedisResult {
+	r.note(cmd)
+	return r.Client.Do(ctx, cmd)
+}
+
+func (r *recClient) DoMulti(ctx context.Context, multi ...rueidis.Completed) []rueidis.RedisResult {
+	for _, c := range multi {
+		r.note(c)
+	}
+	return r.Client.DoMulti(ctx, multi...)
+}
+
+func (r *recClient) Nodes() map[string]rueidis.Client {
+	out := map[string]rueidis.Client{}
+	for k, v := range r.Client.Nodes() {
+		out[k] = &nodeRec{Client: v, parent: r}
+	}
+	return out
+}
+
+// nodeRec: ExecMulti sends SCRIPT LOAD through Nodes(); record those in the parent's log
+type nodeRec struct {
+	rueidis.Client
+	parent *recClient
+}
+
+func (n *nodeRec) Do(ctx context.Context, cmd rueidis.Completed) rueidis.RedisResult {
+	n.parent.note(cmd)
+	return n.Client.Do(ctx, cmd)
+}
+
 func run(ci any) (res obs.Result) {
 	c := ci.(Case)
 	res.Kind = c.Ctor + "/" + c.Script
@@ -198,6 +262,17 @@ func run(ci any) (res obs.Result) {
 		return
 	}
 	defer env.Close()
+	if c.Retry { // the same server, a client with the library's default retry policy
+		env.C.Close()
+		env.C, err = rueidis.NewClient(rueidis.ClientOption{InitAddress: []string{"127.0.0.1:6379"}, DialCtxFn: env.S.Dial,
+			ForceSingleClient: true, DisableCache: true, PipelineMultiplex: -1})
+		if err != nil {
+			res.Oracle, res.Class = "cannot connect: "+err.Error(), "harness"
+			return
+		}
+		res.Kind = "retry/" + c.Ctor + "/" + c.Script
+	}
+	rec := &recClient{Client: env.C}
 	fail := func(class, msg string) {
 		if res.Oracle == "" {
 			res.Oracle, res.Class = msg, class
@@ -294,7 +369,7 @@ func run(ci any) (res obs.Result) {
 			for _, t := range tags {
 				multi = append(multi, rueidis.LuaExec{Keys: []string{"k"}, Args: []string{t}})
 			}
-			rs := lua.ExecMulti(ctx, env.C, multi...)
+			rs := lua.ExecMulti(ctx, rec, multi...)
 			for _, r := range rs {
 				results = append(results, classify(r))
 			}
@@ -310,7 +385,7 @@ func run(ci any) (res obs.Result) {
 				}
 			}
 		} else {
-			r := classify(lua.Exec(ctx, env.C, []string{"k"}, []string{tags[0]}))
+			r := classify(lua.Exec(ctx, rec, []string{"k"}, []string{tags[0]}))
 			results = []string{r}
 			opTerms = append(opTerms, obs.App("LExec", tags[0]))
 			obsTerms = append(obsTerms, obs.App("OOne", r))
@@ -335,7 +410,7 @@ func run(ci any) (res obs.Result) {
 				if nosha {
 					fail("nosha-sent-load", "a NoSha script sent SCRIPT LOAD")
 				}
-				if load && !o.Multi && loadSucceeded {
+				if load && !o.Multi && loadSucceeded && !c.Retry {
 					fail("load-after-success", "Exec sent SCRIPT LOAD although an earlier SCRIPT LOAD had succeeded")
 				}
 				if e.Reply.T == '$' && !lost { // the client saw the SHA-1
@@ -346,7 +421,7 @@ func run(ci any) (res obs.Result) {
 					fail("nosha-sent-evalsha", "a NoSha script sent "+e.Argv[0])
 				}
 			case "CEval", "CEvalRo":
-				if !nosha && !o.Multi && !prevNoScript {
+				if !nosha && !o.Multi && !prevNoScript && !c.Retry {
 					fail("eval-without-noscript", e.Argv[0]+" was sent although the preceding reply was not a NOSCRIPT error")
 				}
 			}
@@ -367,7 +442,13 @@ func run(ci any) (res obs.Result) {
 		for _, t := range tags {
 			if counts[t] > 1 {
 				class := "ran-twice"
+				retriable := c.Ctor == "retryable" || ro // the caller opted in, or the script is read-only: a re-send is legitimate
+				if c.Retry && retriable {
+					continue
+				}
 				switch {
+				case c.Retry && c.Script != "noscript" && c.Script != "errnoscript":
+					class = "fallback-eval-retried" // a non-retryable, writing script was re-sent by the retry loop
 				case c.Script == "noscript" || c.Script == "errnoscript":
 					class = "script-replies-noscript" // the body's own reply is an ERROR with the NOSCRIPT prefix: known finding
 				case strings.HasPrefix(c.Script, "ok-") || c.Script == "ret":
@@ -378,11 +459,43 @@ func run(ci any) (res obs.Result) {
 		}
 		trace = append(trace, []any{o, results, seen, counts})
 	}
+	// retry class of every issued command: EVALSHA / EVAL carry the retryable tag iff the script was created retryable,
+	// in particular the EVAL sent after NOSCRIPT has the class of the script, not a class of its own
+	rec.mu.Lock()
+	issuedLog := append([]issued(nil), rec.log...)
+	rec.mu.Unlock()
+	for _, is := range issuedLog {
+		switch is.kind {
+		case "CEval", "CEvalsha":
+			if is.retryable != (c.Ctor == "retryable") {
+				fail("fallback-retry-class", fmt.Sprintf("%s (tag %s) was issued with IsRetryable() = %v by a script created with ctor %q", is.kind, is.tag, is.retryable, c.Ctor))
+			}
+			if is.readOnly {
+				fail("fallback-retry-class", is.kind+" issued as a read-only command")
+			}
+		case "CEvalRo", "CEvalshaRo":
+			if !is.readOnly || !is.retryable {
+				fail("fallback-retry-class", fmt.Sprintf("%s issued with IsReadOnly() = %v, IsRetryable() = %v", is.kind, is.readOnly, is.retryable))
+			}
+		}
+	}
 	var sent, runs []string
+	nScript := 0
 	for _, e := range env.S.LogCopy() {
 		if kind, tag, ok := isScriptCmd(e.Argv); ok {
-			sent = append(sent, luaobs.Pair(kind, tag))
+			flag := "false"
+			if nScript < len(issuedLog) {
+				if !c.Retry && (issuedLog[nScript].kind != kind || issuedLog[nScript].tag != tag) {
+					fail("harness", "issued commands and server log disagree")
+				}
+				flag = obs.Bool(issuedLog[nScript].retryable)
+			}
+			nScript++
+			sent = append(sent, "("+kind+", "+tag+", "+flag+")")
 		}
+	}
+	if !c.Retry && nScript != len(issuedLog) {
+		fail("harness", fmt.Sprintf("%d script commands issued, %d received", len(issuedLog), nScript))
 	}
 	for _, r := range env.E.Runs() {
 		if len(r.Args) == 1 {
@@ -393,7 +506,11 @@ func run(ci any) (res obs.Result) {
 	res.Nontrivial = len(sent) > 0
 	optTerm := fmt.Sprintf("{| readonly := %s; nosha := %s; loadsha := %s |}", obs.Bool(ro), obs.Bool(nosha), obs.Bool(load))
 	mu.Lock()
-	res.Coq = obs.App("CLua", optTerm, obs.List(applied), obs.List(opTerms), obs.List(obsTerms), obs.List(sent), obs.List(runs))
+	if c.Retry { // retries are outside the model: oracle only
+		mu.Unlock()
+		return
+	}
+	res.Coq = obs.App("CLua", optTerm, obs.Bool(c.Ctor == "retryable"), obs.List(applied), obs.List(opTerms), obs.List(obsTerms), obs.List(sent), obs.List(runs))
 	mu.Unlock()
 	return
 }
